@@ -330,6 +330,9 @@ func (c *orderedComm) SendConsensusMessage(ctx context.Context, recipients []pri
 	for i, r := range recipients {
 		to[i] = memberTok(r)
 	}
+	if m.Kind == "VC" && len(w.excl[n.id]) == 0 && (len(to) != 1 || to[0] != w.leaderAt(m.height(), m.view())) {
+		w.rep.finding("C18", "view-change-sent-to-wrong-member", fmt.Sprintf("node %d sent its VIEW_CHANGE for (h=%d, v=%d) to %v; the leader of that view is member %d", n.id, m.height(), m.view(), to, w.leaderAt(m.height(), m.view())), w.traceInput())
+	}
 	n.outs = append(n.outs, fmt.Sprintf("OSend %s %s", cListN(to), canon(m).coq()))
 	n.sentLog = append(n.sentLog, m)
 	n.curSent = append(n.curSent, m)
@@ -598,6 +601,14 @@ func runWorldModeX(cfg *runCfg, name string, kf1 bool, live bool) error {
 			w = directedWorld(r, rep, cfg.seed*100000+8)
 			w.commitBeforePrepareScript()
 			rep.count("world:directed-commit-before-prepare-script")
+		} else if !kf1 && i == 9 {
+			w = zeroWeightWorld(r, rep, cfg.seed*100000+9)
+			w.zeroWeightScript()
+			rep.count("world:directed-zero-weight-script")
+		} else if !kf1 && i == 10 {
+			w = directedWorld(r, rep, cfg.seed*100000+10, 3)
+			w.twoProofsScript()
+			rep.count("world:directed-two-proofs-script")
 		} else {
 			w.run()
 		}
@@ -684,6 +695,10 @@ func newWorld(r *rand.Rand, rep *Report, seed int64) *world {
 			w.weights[i] = uint64(1 + r.Intn(2))
 		}
 		w.weights[r.Intn(w.n)] = uint64(3 + r.Intn(4))
+	}
+	if r.Intn(5) == 0 { // a member without weight (an observer in the ordered committee), anywhere in the order
+		w.weights[r.Intn(w.n)] = 0
+		rep.count("world:zero-weight-member")
 	}
 	w.rot = uint64(r.Intn(2))
 	// Byzantine subset of weight <= f
